@@ -78,7 +78,7 @@ theorem sorted_good (P : K → Prop) (o : List String) (t : PTree K) (hg : GoodL
     exact (goodLensL_iff P _).2 (sortedL_good P _ cs hg)
 
 section
-variable [AddCommMonoid K] [DecidableEq K]
+variable [AddCommMonoid K]
 
 /-- what one step of a history guarantees -/
 structure StepOK (P : K → Prop) (d : K) (t r : PTree K) (kept : String → Bool) : Prop where
@@ -88,7 +88,7 @@ structure StepOK (P : K → Prop) (d : K) (t r : PTree K) (kept : String → Boo
 
 theorem filter_true_eq (l : List String) : l.filter (fun _ => true) = l := by simp
 
-theorem applyX_ok (P : K → Prop) (hadd : ∀ x y, P x → P y → P (x + y)) (h0 : ¬ P 0) (d : K)
+theorem applyX_ok (P : K → Prop) (hadd : ∀ x y, P x → P y → P (x + y)) (d : K)
     (t r : PTree K) (op : XOp) (h : applyX t op = some r) (hdeg : 2 ≤ t.children.length)
     (hnd : (tips t).Nodup) (hg : GoodLensL P t.children) : StepOK P d t r (keptX op) := by
   -- operations that keep all tips and the split multiset
@@ -129,11 +129,11 @@ theorem applyX_ok (P : K → Prop) (hadd : ∀ x y, P x → P y → P (x + y)) (
     | error e => simp [hs] at h
     | ok r' =>
       simp only [hs, Option.some.injEq] at h; subst h
-      obtain ⟨ht, hgd, hφ⟩ := getSubTree_phi P hadd h0 d t ns im kr r' hs hg hnd
+      obtain ⟨ht, hgd, hφ⟩ := getSubTree_phi P hadd d t ns im kr r' hs hg hnd
       exact ⟨by rw [ht]; exact .refl _, hgd, hφ⟩
 
 /-- Induction over histories of ALL the transformations. -/
-theorem applyXs_ok (P : K → Prop) (hadd : ∀ x y, P x → P y → P (x + y)) (h0 : ¬ P 0) (d : K) :
+theorem applyXs_ok (P : K → Prop) (hadd : ∀ x y, P x → P y → P (x + y)) (d : K) :
     ∀ (ops : List XOp) (t r : PTree K), applyXs t ops = some r → 2 ≤ t.children.length →
       (tips t).Nodup → GoodLensL P t.children → StepOK P d t r (keptAll ops)
   | [], t, r, h, _, _, hg => by
@@ -149,9 +149,9 @@ theorem applyXs_ok (P : K → Prop) (hadd : ∀ x y, P x → P y → P (x + y)) 
       · cases h
       · rename_i hd
         have hdm : 2 ≤ m.children.length := by omega
-        have s1 := applyX_ok P hadd h0 d t m op h1 hdeg hnd hg
+        have s1 := applyX_ok P hadd d t m op h1 hdeg hnd hg
         have hndm : (tips m).Nodup := (s1.tips.nodup_iff).2 (hnd.filter _)
-        have s2 := applyXs_ok P hadd h0 d ops m r h hdm hndm s1.good
+        have s2 := applyXs_ok P hadd d ops m r h hdm hndm s1.good
         refine ⟨?_, s2.good, fun φ hφ => ?_⟩
         · have := s2.tips.trans (s1.tips.filter (keptAll ops))
           simpa [keptAll, List.filter_filter, Bool.and_comm] using this
